@@ -125,6 +125,68 @@ class SubOS(OS):
         return self.fs
 
 
+DECOY_NAMES = ["a", "b", "c", "ab", "a.b"]
+
+
+def _plant_decoys(parent):
+    """Files and directories OUTSIDE the sub-directory whose names equal the names the histories use inside it:
+    a wrapper that forgets to translate a path hits these (parent root and the sub-directory's siblings)."""
+    for d in ("", "top"):
+        for i, n in enumerate(DECOY_NAMES):
+            q = (d + "/" + n).lstrip("/")
+            if i % 2 == 0:
+                parent.writebytes(q, ("decoy:" + q).encode())
+            else:
+                parent.makedirs(q + "/a")
+                parent.writebytes(q + "/a/b", ("decoy:" + q).encode())
+
+
+def _decoys_state(parent):
+    out = []
+    for d in ("", "top"):
+        for i, n in enumerate(DECOY_NAMES):
+            q = (d + "/" + n).lstrip("/")
+            try:
+                if i % 2 == 0:
+                    out.append((q, parent.readbytes(q)))
+                else:
+                    out.append((q, sorted(parent.listdir(q)), sorted(parent.listdir(q + "/a")), parent.readbytes(q + "/a/b")))
+            except Exception as e:  # noqa
+                out.append((q, "GONE:" + type(e).__name__))
+    out.append(("/", sorted(parent.listdir("/"))))
+    out.append(("top", sorted(parent.listdir("top"))))
+    return out
+
+
+class SubMemDecoy(SubMem):
+    """SubFS(MemoryFS) whose parent holds same-named decoys outside the sub-directory."""
+    name = "SubFS(MemoryFS)+decoys"
+
+    def make(self):
+        SubMem.make(self)
+        _plant_decoys(self.parent)
+        self._outside0 = _decoys_state(self.parent)
+        return self.fs
+
+    def outside_changed(self):
+        now = _decoys_state(self.parent)
+        return None if now == self._outside0 else [x for x in now if x not in self._outside0]
+
+
+class SubOSDecoy(SubOS):
+    name = "SubFS(OSFS)+decoys"
+
+    def make(self):
+        SubOS.make(self)
+        _plant_decoys(self.parent)
+        self._outside0 = _decoys_state(self.parent)
+        return self.fs
+
+    def outside_changed(self):
+        now = _decoys_state(self.parent)
+        return None if now == self._outside0 else [x for x in now if x not in self._outside0]
+
+
 class SubSub(Backend):
     name = "SubFS(SubFS(MemoryFS))"
 
